@@ -251,5 +251,15 @@ theorem distributor_never_halts_under_updates (e : Env) (henv : EnvOk e) (hmod :
     rw [h1]
     exact hr
 
+/-- non-vacuity: the concrete configuration and world of C03's example satisfy the hypotheses, and a
+    history with a failing bank call, an accepted burn-share update, a rejected one (wrong signer) and
+    two more blocks runs through (evaluated by the kernel) -/
+theorem under_updates_nonvacuous :
+    CfgInv exEnv exCfg ∧ FullInv exEnv exWorld ∧
+    (match runD exEnv { params := exCfg, world := exWorld }
+        [.block [1], .updBurn true "a" (some (P / 5)), .updBurn false "a" (some (P / 2)), .block [], .block [0, 2]] with
+     | .ok s => (s.params.map (·.burnShare) == [some (P / 5), some 0]) | _ => false) = true := by
+  refine ⟨⟨faithful_block_nonvacuous.1, exCfg_bech32⟩, distributor_block_nonvacuous.2, by decide +kernel⟩
+
 end Updates
 end C4E.Props.C10
